@@ -15,6 +15,7 @@
 -/
 import SA.Proofs.Policy
 import SA.Gen.Locks
+import SA.Gen.PkgVars
 namespace SA.Policy
 
 /-! ### the regenerated facts the theorems rest on -/
@@ -700,3 +701,15 @@ end SA.Policy
 #print axioms SA.Policy.C16_stall_kinds_are_silent
 #print axioms SA.Policy.C16_witness_starttls_stall_unbounded
 #print axioms SA.Policy.C16_locks_not_reentrant
+
+namespace SA.PkgState
+/-- **no_hidden_process_state**: the models of this property are functions of their arguments and of the objects they are
+    handed; the packages they model keep no package-level variables besides these (regenerated inventory: error
+    sentinels, tables, compiled patterns, the two session time-outs).  A new package-level variable — a counter, a cache, a
+    scratch buffer, a shared map, a registry — would make later calls depend on earlier ones, or concurrent calls on each
+    other, outside anything a per-call comparison of model and code can see. -/
+theorem C16_no_hidden_process_state :
+    Gen.pkgVarNames_upstream = [] := by decide
+end SA.PkgState
+
+#print axioms SA.PkgState.C16_no_hidden_process_state
